@@ -6,11 +6,12 @@ import IcingaProofs.C04.Lemmas
 namespace Icinga.C04
 
 /-- work left on the completion path of one checkable: every helper / process action of that checkable decreases it -/
-def Chk.work (x : Chk) : Nat := 5 * x.hq + 4 * x.hx + 3 * x.hs + 2 * x.hr + x.hd + 2 * x.procs + x.pz
+def Chk.work (x : Chk) : Nat := 6 * x.hq + 5 * x.hu + 4 * x.hx + 3 * x.hs + 2 * x.hr + x.hd + 2 * x.procs + x.pz
 
 /-- the actions of the completion path of checkable `c`: guard, result, PluginCheckTask's `+1`, process exit and result, the
     helper's `-1` and final section -/
 def Act.completes (c : Nat) : Act → Bool
+  | .rearm c' _ _ => c' == c
   | .helperGuard c' => c' == c
   | .result c' => c' == c
   | .pluginInc c' => c' == c
@@ -22,15 +23,20 @@ def Act.completes (c : Nat) : Act → Bool
 
 theorem work_zero_settled (x : Chk) (h : x.work = 0) : x.settled = true := by
   unfold Chk.work at h
-  have : x.hq = 0 ∧ x.hx = 0 ∧ x.hs = 0 ∧ x.hr = 0 ∧ x.hd = 0 ∧ x.procs = 0 ∧ x.pz = 0 := by omega
-  obtain ⟨a, b, d, e, f, g, i⟩ := this
-  simp [Chk.settled, Chk.helpers, a, b, d, e, f, g, i]
+  have : x.hq = 0 ∧ x.hu = 0 ∧ x.hx = 0 ∧ x.hs = 0 ∧ x.hr = 0 ∧ x.hd = 0 ∧ x.procs = 0 ∧ x.pz = 0 := by omega
+  obtain ⟨a, u, b, d, e, f, g, i⟩ := this
+  simp [Chk.settled, Chk.helpers, a, u, b, d, e, f, g, i]
 
 /-- some action of the completion path is enabled whenever work is left, and it decreases the work -/
 theorem completion_step (s : St) (c : Nat) (hc : c < s.n) (hw : (s.chk c).work ≠ 0) :
     ∃ a s1, step s a = some s1 ∧ a.completes c = true ∧ s1.n = s.n ∧ (s1.chk c).work < (s.chk c).work := by
   by_cases hq : 0 < (s.chk c).hq
-  · refine ⟨.helperGuard c, s.upd c (s.chk c).helperGuard, by simp [step, hc, hq], by simp [Act.completes], rfl, ?_⟩
+  · -- `ExecuteCheck`'s early UpdateNextCheck: the clock is not before the dispatch, the value after the clock
+    refine ⟨.rearm c (s.chk c).dispatchedAt ((s.chk c).dispatchedAt + 1), s.upd c ((s.chk c).rearm ((s.chk c).dispatchedAt + 1)),
+      by simp [step, hc, hq]; omega, by simp [Act.completes], rfl, ?_⟩
+    simp only [St.upd, if_true, Chk.rearm, Chk.work]; omega
+  by_cases hu : 0 < (s.chk c).hu
+  · refine ⟨.helperGuard c, s.upd c (s.chk c).helperGuard, by simp [step, hc, hu], by simp [Act.completes], rfl, ?_⟩
     simp only [St.upd, if_true, Chk.helperGuard, Chk.work]; split <;> simp <;> omega
   by_cases hx : 0 < (s.chk c).hx
   · refine ⟨.result c, s.upd c (s.chk c).result, by simp [step, hc, hx], by simp [Act.completes], rfl, ?_⟩
